@@ -1,0 +1,15 @@
+//go:build !verif
+
+package logqlengine
+
+import (
+	"github.com/tdakkota/docker-logql/internal/logql"
+	"github.com/tdakkota/docker-logql/internal/lokiapi"
+)
+
+// verifEnabled reports whether verification hooks are compiled in.
+const verifEnabled = false
+
+func verifOrder(keys []logql.Label) []logql.Label { return keys }
+
+func verifOrderStreams(s lokiapi.Streams) lokiapi.Streams { return s }
